@@ -556,6 +556,19 @@ class Interp:
         # --- accessor applied to opaque tokens only: nothing to learn by inlining, keep it symbolic
         dargs = [self.deref_val(a) for a in args]
         if args and all(d is not None and d[0] == "tok" for d in dargs):
+            # try the body first: a pure function of opaque arguments may still have a determined result
+            # (e.g. a decision made by comparing the arguments); otherwise keep the application symbolic
+            for p in (res_path, path):
+                if p in self.f.bodies and not self.f.bodies[p].rec.get("derived"):
+                    saved_heap, saved_events = copy.deepcopy(self.heap), list(self.events)
+                    try:
+                        r = self.call_body(p, args, depth + 1)
+                        if self.known(r):
+                            return r
+                    except Unsupported:
+                        pass
+                    self.heap, self.events = saved_heap, saved_events
+                    break
             self.events.append(("call", name, [d[1] for d in dargs], site))
             return Tok("%s(%s)" % (name, ",".join(d[1] for d in dargs)))
         # --- crate-local functions: inline
